@@ -92,7 +92,7 @@ def run(ctx, res):
         per = {v: stream_nexts(S, k, b, lp, tm[v]) for v in OPS}
         if any(per[v] for v in OPS):
             consuming.append((k, b, bi, tm, lp, per))
-    res.floor("stream_consuming_walkers", len(consuming), 4)
+    res.need("C01.a", "stream_consuming_walkers", len(consuming), 4, "loops over circ.insts that consume preprocessing streams (init_and_shares, garble x2, evaluate)")
     for (k, b, bi, tm, lp, per) in consuming:
         fn = b.owner.rsplit("::", 1)[-1]
         inst = "%s@%s" % (fn, fl(b.blocks[bi]["t"]["sp"]).rsplit(":", 1)[-1])
@@ -171,7 +171,7 @@ def run(ctx, res):
                 res.ok("C01.b", "%s|reads" % b.owner.rsplit("::", 1)[-1], fl(b.span), "depends only on %s (public, identical at every party)" % sorted(reads))
             else:
                 res.bad("C01.b", "%s|reads" % b.owner.rsplit("::", 1)[-1], "batch size depends on %s: parties with different roles / settings would chunk differently" % sorted(reads - {"num_inputs", "num_and_ops"}), fl(b.span))
-    res.floor("batch_size_methods", len(methods), 2)
+    res.need("C01.b", "batch_size_methods", len(methods), 2, "Context::*_batch_size methods")
 
     def batch_sources(k, o):
         if o["k"] == "const":
@@ -226,8 +226,8 @@ def run(ctx, res):
                     res.ok("C01.b", inst, where(b, bi), "chunk size from Context::%s()" % list(src)[0])
                 else:
                     res.bad("C01.b", inst, "chunk size does not come from a Context batch-size method (%s): reader and writer would disagree" % (sorted(src) or "unknown"), where(b, bi))
-    res.floor("flush_comparisons", n_flush, 3)
-    res.floor("chunk_size_consumers", n_chunk, 3)
+    res.need("C01.b", "flush_comparisons", n_flush, 3, "chunk flush comparisons `len >= batch size`")
+    res.need("C01.b", "chunk_size_consumers", n_chunk, 3, "chunk_size_iter / chunks consumers of a batch size")
     # writer / reader pairs use the same method
     # (garble: sender flush, receiver chunk_size_iter, evaluator table-share flush; init_and_shares/gen_auth_bits)
     # ------------------------------------------------------------------ (c) literal party indices
@@ -266,6 +266,6 @@ def run(ctx, res):
                     if lit:
                         bad += 1
                         res.bad("C01.c", "%s|index" % b.owner.rsplit("::", 1)[-1], "a per-party vector is indexed with a literal party index", where(b, bi))
-    res.floor("party_index_positions", n_idx, 60)
+    res.floor("party_index_positions", n_idx, 30)
     if not bad:
         res.ok("C01.c", "party-indices", "", "%d party-index positions (channel peers, xor_key, per-party vectors): none is a literal" % n_idx)
